@@ -298,7 +298,7 @@ def case_strategy(draw, method, kernel, narr, mode='interpolator'):
     cur = arrays
     for _ in range(draw(st.integers(0, 4))):
         k = draw(st.sampled_from(['points', 'points', 'domain', 'arrays',
-                                  'move', 'data']))
+                                  'move', 'data', 'hgrow']))
         if ev and k == 'domain':
             k = 'arrays'
         if k == 'points':
@@ -326,6 +326,11 @@ def case_strategy(draw, method, kernel, narr, mode='interpolator'):
             ops.append(dict(op='move', pos=pos,
                             update_domain=bool(periodic) or
                             draw(st.booleans())))
+        elif k == 'hgrow':
+            # smoothing lengths change in place (adaptive h), then update()
+            fac = draw(st.sampled_from([1.5, 2.0, 3.0, 0.5]))
+            cur = [dict(a, h=[v * fac for v in a['h']]) for a in cur]
+            ops.append(dict(op='hgrow', factor=fac))
         else:
             fs = [[v / 4.0 for v in draw(st.lists(
                 st.integers(-16, 16), min_size=a['n'], max_size=a['n']))]
@@ -907,6 +912,12 @@ class Run(object):
                 model.push(pas, ['x', 'y', 'z', 'lin'])
                 ok, _ = self.call(phase, 'update', ip.update,
                                   update_domain=op['update_domain'])
+            elif phase == 'hgrow':
+                for d in model.arr:
+                    d['h'] = d['h'] * op['factor']
+                model.push(pas, ['h'])
+                self.labels.add('h_changed_in_place')
+                ok, _ = self.call(phase, 'update', ip.update)
             else:
                 for d, f in zip(model.arr, op['f']):
                     d['f'] = np.asarray(f, dtype=float)
